@@ -5,7 +5,7 @@ READY = True
 RULE = ("histories of single/multi-event, multi-stream appends over 1-2 buckets with 128 KiB segments (big payloads force rollovers), reopen, "
         "then stream and partition scans from {0, mid, last, last+1, u64::MAX, random} x {forward, reverse} x batch {1,2,3,50}; "
         "non-trivial = at least two appends of which one succeeded; distinct = distinct history strings")
-monitor_e = storelib.monitor_kinds({"SS", "SP"}, "scan")
+monitor_e = storelib.monitor_kinds({"SS", "SP", "SX"}, "scan")
 LEVEL_TEXT = ("Machine-checked proof (Coq, ~3300 lines) about the faithful model of the scan iterators (BucketIter::new_inner / next_batch / rollover, SegmentIter::new / next, advance_offsets_index, "
               "filter_commit): for every reachable store (any operation list: appends, syncs, rollovers at any point, reopen, crashes), every key, start position and batch size, the forward scan never errors "
               "and returns exactly the stored events of the key at or after the position, once each, gapless and strictly increasing, grouped as the stored transactions (C03_reachable_forward_exact/groups/positions, "
